@@ -13,9 +13,18 @@ import (
 
 func TestMain(m *testing.M) { ev.Main(m, "C08") }
 
-func TestAutocommitNeverSkips(t *testing.T) {
+func TestAutocommitNeverSkips(t *testing.T) { autocommitNeverSkips(t, wl.GroupFocus{}) }
+
+// TestAutocommitNeverSkipsCoopMulti searches the incremental protocols with members consuming
+// several topics: a rebalance there takes some partitions away while the member keeps
+// consuming (and autocommitting) the others across the session change.
+func TestAutocommitNeverSkipsCoopMulti(t *testing.T) {
+	autocommitNeverSkips(t, wl.GroupFocus{CoopMulti: true})
+}
+
+func autocommitNeverSkips(t *testing.T, focus wl.GroupFocus) {
 	rapid.Check(t, func(rt *rapid.T) {
-		plan := wl.GenGroupPlan(rt)
+		plan := wl.GenGroupPlanF(rt, focus)
 		plan.DefaultRevoke = true // the property is about default autocommit AND default revoke handling
 		var o *wl.GroupObs
 		checked := 0
